@@ -949,6 +949,14 @@ impl<'a> Exec<'a> {
                 return;
             }
         }
+        {
+            let n = m0.recs.len();
+            let rel: u64 = if n <= m0.limit { 0 } else if n <= 2 * m0.limit { 1 } else { 2 };
+            let threads_used: std::collections::BTreeSet<usize> = stores.iter().map(|s| self.stores[s].thread).collect();
+            let primed = stores.iter().filter(|s| self.stores[*s].searched_before).count() as u64;
+            let pol = stores.iter().any(|s| self.polluted[self.stores[s].thread]) as u64;
+            self.note_state(&[8, (n.min(60) / 6) as u64, rel, stores.len() as u64, threads_used.len() as u64, primed.min(2), pol, results[0].len().min(3) as u64]);
+        }
         // measure: did two replicas really receive a returned pair in opposite orders?
         if results[0].len() >= 2 {
             let a = results[0][0].0;
@@ -1179,6 +1187,18 @@ impl<'a> Exec<'a> {
                 return;
             }
         }
+        {
+            // abstract state of the registry after this call
+            let live_here = self.registry.keys().filter(|(rt, _)| *rt == t).count() as u64;
+            let (n, l, nonempty, reborn) = match self.registry.get(&(t, id)) {
+                Some(s) => (s.model.recs.len(), s.model.limit, !s.last_hits.is_empty(), s.destroyed_before),
+                None => (0, 0, false, true),
+            };
+            let rel: u64 = if l == 0 { 0 } else if n < l { 1 } else if n == l { 2 } else if n <= 10 * l { 3 } else { 4 };
+            let kind = crate::rng::fnv_str(op.kind());
+            let pol = self.polluted[t] as u64;
+            self.note_state(&[7, kind, live_here.min(3), (n.min(40) / 8) as u64, rel, nonempty as u64, reborn as u64, pol]);
+        }
         if !c20 || self.out.violation.is_some() {
             return;
         }
@@ -1225,6 +1245,14 @@ impl<'a> Exec<'a> {
         if live_ids >= 2 && foreign_nonempty {
             self.out.nontrivial = true;
         }
+    }
+
+    pub fn note_state(&mut self, parts: &[u64]) {
+        let mut h = Fnv::new();
+        for p in parts {
+            h.u64(*p);
+        }
+        self.out.states.insert(h.0);
     }
 
     // accessors for the scratch module
